@@ -125,6 +125,9 @@ type c5range struct {
 	els    []c5node
 	hasEls bool
 	wrapN  bool // multi-entry map: chunks wrapped for multiset comparison
+	// '_' spellings: "a, _ := X" is still the two-variable form ('.' unchanged); "_ := X" is the
+	// one-variable form
+	discardA, discardB bool
 }
 type c5let struct{ name, val string }
 
@@ -348,6 +351,12 @@ func (g *c5gen) stmt(depth int) c5node {
 				}
 			}
 		}
+		if !r.assign && r.form == 2 && g.t.Choose(4) == 3 {
+			r.discardB = true
+		}
+		if !r.assign && r.form == 1 && g.t.Choose(5) == 4 {
+			r.discardA = true
+		}
 		savedVis := g.vis
 		if r.assign {
 			// the pre-declarations live in the enclosing list from here on
@@ -358,8 +367,11 @@ func (g *c5gen) stmt(depth int) c5node {
 				savedVis = append(savedVis, r.b)
 			}
 		} else if r.form > 0 {
-			g.vis = append(append([]string(nil), g.vis...), r.a)
-			if r.form == 2 {
+			g.vis = append([]string(nil), g.vis...)
+			if !r.discardA {
+				g.vis = append(g.vis, r.a)
+			}
+			if r.form == 2 && !r.discardB {
 				g.vis = append(g.vis, r.b)
 			}
 		}
@@ -471,20 +483,31 @@ func c5src(b *strings.Builder, ns []c5node) {
 			if n.wrapN {
 				b.WriteString("<<")
 			}
+			va, vb := n.a, n.b
+			if n.discardA {
+				va = "_"
+			}
+			if n.discardB {
+				vb = "_"
+			}
 			switch n.form {
 			case 0:
 				b.WriteString("{{range " + n.s.expr + "}}")
 			case 1:
-				b.WriteString("{{range " + n.a + " " + op + " " + n.s.expr + "}}")
+				b.WriteString("{{range " + va + " " + op + " " + n.s.expr + "}}")
 			case 2:
-				b.WriteString("{{range " + n.a + ", " + n.b + " " + op + " " + n.s.expr + "}}")
+				b.WriteString("{{range " + va + ", " + vb + " " + op + " " + n.s.expr + "}}")
 			}
 			b.WriteString("(")
-			switch n.form {
-			case 1:
+			switch {
+			case n.form == 1 && !n.discardA:
 				b.WriteString("{{" + n.a + "}}~")
-			case 2:
+			case n.form == 1:
+				b.WriteString("_~")
+			case n.form == 2 && !n.discardB:
 				b.WriteString("{{" + n.a + "}}={{" + n.b + "}}~")
+			case n.form == 2:
+				b.WriteString("{{" + n.a + "}}=_~")
 			}
 			b.WriteString("{{.}}:")
 			c5src(b, n.body)
@@ -647,10 +670,14 @@ func (e *c5eval) run(b *strings.Builder, ns []c5node, ctx string) {
 					}
 					if n.assign {
 						e.assign(n.a, lastA)
-					} else {
+					} else if !n.discardA {
 						e.frames[len(e.frames)-1][n.a] = lastA
 					}
-					b.WriteString(lastA + "~")
+					if n.discardA {
+						b.WriteString("_~")
+					} else {
+						b.WriteString(lastA + "~")
+					}
 				case 2:
 					lastA, lastB = el.key, el.val
 					if n.assign {
@@ -658,9 +685,15 @@ func (e *c5eval) run(b *strings.Builder, ns []c5node, ctx string) {
 						e.assign(n.b, lastB)
 					} else {
 						e.frames[len(e.frames)-1][n.a] = lastA
-						e.frames[len(e.frames)-1][n.b] = lastB
+						if !n.discardB {
+							e.frames[len(e.frames)-1][n.b] = lastB
+						}
 					}
-					b.WriteString(lastA + "=" + lastB + "~")
+					if n.discardB {
+						b.WriteString(lastA + "=_~")
+					} else {
+						b.WriteString(lastA + "=" + lastB + "~")
+					}
 				}
 				b.WriteString(inner + ":")
 				e.run(b, n.body, inner)
